@@ -58,7 +58,22 @@ func (c *Criteria) Validate() {
 
 func (c *Criteria) NotUsedName(name string) string {
 	count := c.countWithPrefix(name)
-	return firstFreeName(name, count)
+	candidate := firstFreeName(name, count)
+	// the number of ids sharing the prefix is only a first guess: after some of them were removed the guess can be taken
+	for c.hasId(candidate) {
+		count++
+		candidate = firstFreeName(name, count)
+	}
+	return candidate
+}
+
+func (c *Criteria) hasId(id string) bool {
+	for _, cr := range *c {
+		if cr.Id == id {
+			return true
+		}
+	}
+	return false
 }
 
 func firstFreeName(name string, count int) string {
